@@ -66,6 +66,8 @@ def parse_generic(src):
         found += 1
         what, name, generic, body = m.groups()
         lines = [l.strip() for l in body.split("\n") if l.strip()]
+        if what == "enum" and name == "Ast":
+            continue        # umbrella enum over all node types; not a node kind itself
         if what == "enum":
             if generic:
                 vs = []
@@ -235,3 +237,290 @@ def needed(sc, carry):
                     need.add(u)
                     todo.append(u)
     return need
+
+
+# ------------------------------------------------------------------ canonical token text
+
+_TOK = re.compile(r"[A-Za-z_][A-Za-z0-9_]*|\d+|::|->|=>|\"[^\"]*\"|[{}()\[\]<>,;:&*?=.!#+'|-]|\S")
+
+
+def canon(src):
+    """token stream joined by single blanks; commas directly before a closing bracket dropped"""
+    toks = _TOK.findall(_strip_comments(src))
+    out = []
+    for i, t in enumerate(toks):
+        if t == "," and i + 1 < len(toks) and toks[i + 1] in ("}", ")", "]"):
+            continue
+        out.append(t)
+    return " ".join(out)
+
+
+def C(s):
+    """regex for a canonical-token-text template: literal parts are escaped verbatim (blanks included),
+    «…» parts are raw regex"""
+    parts = re.split(r"(«[^»]*»)", s)
+    out = []
+    for p in parts:
+        if p.startswith("«"):
+            out.append(p[1:-1])
+        else:
+            out.append(re.escape(p))
+    return "".join(out)
+
+
+ID = r"[A-Za-z_][A-Za-z0-9_]*"
+
+FOLD_PRELUDE = canon("""
+pub trait Fold<U> {
+    type TargetU;
+    type Error;
+    type UserContext;
+
+    fn will_map_user(&mut self, user: &U) -> Self::UserContext;
+    #[cfg(feature = "all-nodes-with-ranges")]
+    fn will_map_user_cfg(&mut self, user: &U) -> Self::UserContext {
+        self.will_map_user(user)
+    }
+    #[cfg(not(feature = "all-nodes-with-ranges"))]
+    fn will_map_user_cfg(
+        &mut self,
+        _user: &crate::EmptyRange<U>,
+    ) -> crate::EmptyRange<Self::TargetU> {
+        crate::EmptyRange::default()
+    }
+    fn map_user(
+        &mut self,
+        user: U,
+        context: Self::UserContext,
+    ) -> Result<Self::TargetU, Self::Error>;
+    #[cfg(feature = "all-nodes-with-ranges")]
+    fn map_user_cfg(
+        &mut self,
+        user: U,
+        context: Self::UserContext,
+    ) -> Result<Self::TargetU, Self::Error> {
+        self.map_user(user, context)
+    }
+    #[cfg(not(feature = "all-nodes-with-ranges"))]
+    fn map_user_cfg(
+        &mut self,
+        _user: crate::EmptyRange<U>,
+        _context: crate::EmptyRange<Self::TargetU>,
+    ) -> Result<crate::EmptyRange<Self::TargetU>, Self::Error> {
+        Ok(crate::EmptyRange::default())
+    }
+
+    fn fold<X: Foldable<U, Self::TargetU>>(&mut self, node: X) -> Result<X::Mapped, Self::Error> {
+        node.fold(self)
+    }
+""")
+
+FOLD_GLUE = canon("""
+use super::generic::*;
+use crate::{builtin, ConversionFlag};
+pub trait Foldable<T, U> {
+    type Mapped;
+    fn fold<F: Fold<T, TargetU = U> + ?Sized>(self, folder: &mut F) -> Result<Self::Mapped, F::Error>;
+}
+impl<T, U, X> Foldable<T, U> for Vec<X> where X: Foldable<T, U>, {
+    type Mapped = Vec<X::Mapped>;
+    fn fold<F: Fold<T, TargetU = U> + ?Sized>(self, folder: &mut F) -> Result<Self::Mapped, F::Error> {
+        self.into_iter().map(|x| x.fold(folder)).collect()
+    }
+}
+impl<T, U, X> Foldable<T, U> for Option<X> where X: Foldable<T, U>, {
+    type Mapped = Option<X::Mapped>;
+    fn fold<F: Fold<T, TargetU = U> + ?Sized>(self, folder: &mut F) -> Result<Self::Mapped, F::Error> {
+        self.map(|x| x.fold(folder)).transpose()
+    }
+}
+impl<T, U, X> Foldable<T, U> for Box<X> where X: Foldable<T, U>, {
+    type Mapped = Box<X::Mapped>;
+    fn fold<F: Fold<T, TargetU = U> + ?Sized>(self, folder: &mut F) -> Result<Self::Mapped, F::Error> {
+        (*self).fold(folder).map(Box::new)
+    }
+}
+macro_rules! simple_fold {
+    ($($t:ty),+$(,)?) => {
+        $(impl<T, U> $crate::fold::Foldable<T, U> for $t {
+            type Mapped = Self;
+            #[inline]
+            fn fold<F: Fold<T, TargetU = U> + ?Sized>(self, _folder: &mut F) -> Result<Self::Mapped, F::Error> {
+                Ok(self)
+            }
+        })+
+    };
+}
+simple_fold!(builtin::Int, builtin::String, builtin::Identifier, bool, ConversionFlag, builtin::Constant);
+include!("gen/fold.rs");
+""")
+
+
+class Cursor:
+    def __init__(self, text, what):
+        self.t = text
+        self.p = 0
+        self.what = what
+
+    def take(self, pattern, desc):
+        """match regex at the cursor (after one optional blank)"""
+        if self.t.startswith(" ", self.p):
+            self.p += 1
+        m = re.compile(pattern).match(self.t, self.p)
+        if not m:
+            _fail(f"{self.what}: expected {desc} at …{self.t[self.p:self.p + 160]!r}")
+        self.p = m.end()
+        return m
+
+    def peek(self, pattern):
+        p = self.p + 1 if self.t.startswith(" ", self.p) else self.p
+        return re.compile(pattern).match(self.t, p)
+
+    def done(self):
+        return self.p >= len(self.t.rstrip())
+
+
+def parse_fold(src, glue_src, sc):
+    if canon(glue_src) != FOLD_GLUE:
+        _fail("ast/src/fold.rs (Foldable impls for Vec/Option/Box/leaf types) differs from the shape the "
+              "generic interpreter models")
+    text = canon(src)
+    if not text.startswith(FOLD_PRELUDE):
+        _fail("gen/fold.rs: trait Fold prelude (will_map_user/map_user and _cfg variants) has an unrecognised shape")
+    cur = Cursor(text, "gen/fold.rs")
+    cur.p = len(FOLD_PRELUDE)
+    # trait methods
+    trait_methods = {}
+    pat = C("fn «(?P<f>fold_[a-z_]+)» ( & mut self , node : «(?P<t>" + ID + ")»«(?P<g> < U >)?» ) -> Result < "
+            "«(?P<t2>" + ID + ")»«(?P<g2> < Self :: TargetU >)?» , Self :: Error > { «(?P<f2>" + ID + ")» ( self , node ) }")
+    while not cur.peek(re.escape("}")):
+        m = cur.take(pat, "trait method `fn fold_x(&mut self, node: X<U>) -> … { fold_x(self, node) }`")
+        if m.group("t") != m.group("t2") or m.group("f") != m.group("f2") or bool(m.group("g")) != bool(m.group("g2")):
+            _fail(f"gen/fold.rs: trait method {m.group('f')} is not the plain delegation")
+        if m.group("t") in trait_methods:
+            _fail(f"gen/fold.rs: two trait methods for {m.group('t')}")
+        trait_methods[m.group("t")] = m.group("f")
+    cur.take(re.escape("}"), "end of trait")
+    impl_pat = C("impl < T , U > Foldable < T , U > for «(?P<t>" + ID + ")»«(?P<g> < T >)?» { type Mapped = "
+                 "«(?P<t2>" + ID + ")»«(?P<g2> < U >)?» ; fn fold < F : Fold < T , TargetU = U > + ? Sized > ( self , "
+                 "folder : & mut F ) -> Result < Self :: Mapped , F :: Error > { folder . «(?P<f>" + ID + ")» ( self ) } }")
+    fn_pat = C("pub fn «(?P<f>" + ID + ")» < U , F : Fold < U > + ? Sized > ( # [ allow ( unused ) ] folder : & mut F , "
+               "node : «(?P<t>" + ID + ")»«(?P<g> < U >)?» ) -> Result < «(?P<t2>" + ID + ")»«(?P<g2> < F :: TargetU >)?» , "
+               "F :: Error > {")
+    entries = {}
+    dispatch = {}
+    simple_seen = set()
+    while not cur.done():
+        m = cur.take(impl_pat, "`impl Foldable for X`")
+        t = m.group("t")
+        if t != m.group("t2") or bool(m.group("g")) != bool(m.group("g2")):
+            _fail(f"gen/fold.rs: impl Foldable for {t}: Mapped type differs")
+        if trait_methods.get(t) != m.group("f"):
+            _fail(f"gen/fold.rs: impl Foldable for {t} calls folder.{m.group('f')}, trait has {trait_methods.get(t)}")
+        m2 = cur.take(fn_pat, f"`pub fn {m.group('f')}`")
+        if m2.group("f") != m.group("f") or m2.group("t") != t or m2.group("t2") != t:
+            _fail(f"gen/fold.rs: free function after impl for {t} is {m2.group('f')} on {m2.group('t')}")
+        generic = bool(m2.group("g"))
+        if generic != bool(m2.group("g2")) or generic != bool(m.group("g")):
+            _fail(f"gen/fold.rs: {m.group('f')}: generic parameters inconsistent")
+        if t in sc.simple:
+            if generic:
+                _fail(f"{t}: simple enum with type parameter")
+            cur.take(C("Ok ( node ) }"), f"`Ok(node)` body of {m.group('f')}")
+            simple_seen.add(t)
+        elif t in sc.sum_variants:
+            cur.take(C("let folded = match node {"), f"match in {m.group('f')}")
+            arms = []
+            while not cur.peek(re.escape("}")):
+                a = cur.take(C("«(?P<s>" + ID + ")» :: «(?P<v>" + ID + ")» ( cons ) => «(?P<b>\\{ )?»"
+                               "«(?P<s2>" + ID + ")» :: «(?P<v2>" + ID + ")» ( Foldable :: fold ( cons , folder ) ? )"
+                               "«(?(b) \\})»«(?: ,)?»"), f"dispatch arm in {m.group('f')}")
+                if a.group("s") != t or a.group("s2") != t or a.group("v") != a.group("v2"):
+                    _fail(f"gen/fold.rs: {m.group('f')}: arm {a.group(0)!r} does not rebuild the same variant")
+                arms.append(a.group("v"))
+            cur.take(C("} ; Ok ( folded ) }"), f"end of {m.group('f')}")
+            want = [v for v, _ in sc.sum_variants[t]]
+            if sorted(arms) != sorted(want):
+                _fail(f"gen/fold.rs: {m.group('f')}: arms {arms} do not cover variants {want} exactly once")
+            dispatch[t] = arms
+        elif t in sc.kind_id:
+            entries[t] = _parse_fold_product(cur, t, m.group("f"), sc)
+        else:
+            _fail(f"gen/fold.rs: fold function for unknown type {t}")
+    for k in sc.kinds:
+        if k not in entries:
+            _fail(f"gen/fold.rs: no fold function for node kind {k}")
+    for s in sc.sum_variants:
+        if s not in dispatch:
+            _fail(f"gen/fold.rs: no fold dispatcher for sum type {s}")
+    for s in sc.simple:
+        if s not in simple_seen:
+            _fail(f"gen/fold.rs: no fold function for simple enum {s}")
+    return entries, dispatch
+
+
+def _parse_fold_product(cur, t, fname, sc):
+    fields = [f for f, _ in sc.structs[t]["fields"]]
+    idx = {f: i for i, f in enumerate(fields)}
+    m = cur.take(C("let «(?P<t>" + ID + ")» { «(?P<body>[a-z0-9_ ,]*)» } = node ;"), f"destructuring in {fname}")
+    if m.group("t") != t:
+        _fail(f"{fname}: destructures {m.group('t')}")
+    names = [x.strip() for x in m.group("body").split(",") if x.strip()]
+    e = {"destruct": [], "destructRange": False, "will": 0, "calls": [], "map": 0, "rebuild": None, "rebuildRange": False}
+    for n in names:
+        if n == "range":
+            if e["destructRange"]:
+                _fail(f"{fname}: range destructured twice")
+            e["destructRange"] = True
+        elif n in idx:
+            if idx[n] in e["destruct"]:
+                _fail(f"{fname}: field {n} destructured twice")
+            e["destruct"].append(idx[n])
+        else:
+            _fail(f"{fname}: destructured name {n} is not a field of {t}")
+    w = cur.peek(C("let context = folder . «(?P<w>will_map_user(?:_cfg)?)» ( & range ) ;"))
+    if w:
+        cur.take(C("let context = folder . «(?P<w>will_map_user(?:_cfg)?)» ( & range ) ;"), "will_map_user")
+        e["will"] = 1 if w.group("w") == "will_map_user" else 2
+    rebound = set()
+    call_pat = C("let «(?P<d>" + ID + ")» = Foldable :: fold ( «(?P<s>" + ID + ")» , folder ) ? ;")
+    while cur.peek(call_pat):
+        c = cur.take(call_pat, "fold call")
+        d, s = c.group("d"), c.group("s")
+        if d not in idx or s not in idx:
+            _fail(f"{fname}: fold call {c.group(0)!r} uses a name that is not a field of {t}")
+        if s in rebound:
+            _fail(f"{fname}: {s} is folded after having been rebound (shape not modelled)")
+        if idx[s] not in e["destruct"]:
+            _fail(f"{fname}: {s} folded but not destructured")
+        rebound.add(d)
+        e["calls"].append((idx[d], idx[s]))
+    mp = cur.peek(C("let range = folder . «(?P<w>map_user(?:_cfg)?)» ( range , context ) ? ;"))
+    if mp:
+        cur.take(C("let range = folder . «(?P<w>map_user(?:_cfg)?)» ( range , context ) ? ;"), "map_user")
+        e["map"] = 1 if mp.group("w") == "map_user" else 2
+        if not e["will"]:
+            _fail(f"{fname}: map_user without will_map_user")
+    r = cur.take(C("Ok ( «(?P<t>" + ID + ")» { «(?P<body>[a-z0-9_ ,:]*)» } ) }"), f"rebuild literal in {fname}")
+    if r.group("t") != t:
+        _fail(f"{fname}: rebuilds {r.group('t')}")
+    reb = {}
+    for part in [x.strip() for x in r.group("body").split(",") if x.strip()]:
+        if ":" in part:
+            a, b = [x.strip() for x in part.split(":")]
+        else:
+            a = b = part
+        if a == "range":
+            if b != "range":
+                _fail(f"{fname}: range rebuilt from {b}")
+            e["rebuildRange"] = True
+            continue
+        if a not in idx or b not in idx:
+            _fail(f"{fname}: rebuild item {part!r} uses a name that is not a field of {t}")
+        if a in reb:
+            _fail(f"{fname}: field {a} given twice")
+        reb[a] = idx[b]
+    if sorted(reb) != sorted(fields) or not e["rebuildRange"]:
+        _fail(f"{fname}: rebuild literal does not list every field of {t}")
+    e["rebuild"] = [reb[f] for f in fields]
+    return e
